@@ -257,6 +257,7 @@ func init() {
 			ruleACT2(c)
 			ruleACT3(c)
 			ruleBIND3(c)
+			ruleBIND2(c) // a rule has one Go type only if all its actions return identical types: the type every _cast of that rule's value uses
 			ruleFMT6(c) // the reduce sequence pops _termCounts[prod] entries and takes the goto of _rules[prod]: both must be written at the production's position
 		},
 		Thorough: func(c *Ctx) {
